@@ -78,13 +78,21 @@ fn run_program(tid: usize, prog: Vec<SOp>, mut handles: Vec<(u8, SharedString)>,
             }
         }
     };
-    for op in prog {
+    for (opi, op) in prog.into_iter().enumerate() {
         // operation boundary: the other threads may run between two operations
         sched::yield_here("op");
         match op {
             SOp::NewA | SOp::NewB => {
                 let c = if op == SOp::NewA { 0 } else { 1 };
-                let h = SharedString::new(content(c));
+                // the same bytes arrive in buffers of different capacity (exact, or with room to
+                // spare), as they do from `to_vec`, `read_to_end` or a base64 decoder
+                let mut bytes = content(c);
+                if (tid + opi) % 2 == 1 {
+                    let mut roomy = Vec::with_capacity(bytes.len() + 40);
+                    roomy.extend_from_slice(&bytes);
+                    bytes = roomy;
+                }
+                let h = SharedString::new(bytes);
                 handles.push((c, h));
             }
             SOp::CloneNewest => {
